@@ -431,10 +431,10 @@ def rule_cx(ctx, tu):
         if n.get("kind") == "CaseStmt":
             lab = cxa.const_int(kids(n)[0])
             for s in cxa.all_stores(n):
-                if s.base and s.op in ("+=", "-=") and cxa.const_int(s.rhs) == 1:
+                if s.base and ((s.op in ("+=", "-=") and cxa.const_int(s.rhs) == 1) or s.op in ("++", "--")):
                     nm = cxfe.uname(strip(s.target, casts=True)).split("'")[0]
                     ctx.need(nm in AX, R, "GetNeighborIndex: case %s moves unknown variable %s" % (lab, nm))
-                    moves[lab] = (AX[nm], 1 if s.op == "+=" else -1)
+                    moves[lab] = (AX[nm], 1 if s.op in ("+=", "++") else -1)
     if not moves:
         tables = {}      # one table per axis: name -> 6 offsets;  or one [6][3] table: name -> 6 rows of 3
         for n in walk(f.body):
